@@ -16,7 +16,6 @@
    (C03_accept_all is the special case of Grammar.v's layouts: xdoc_of.) *)
 From V.model Require Import Base Deb822Lex Deb822Parse Grammar XGrammar.
 From V.proofs Require Import BaseP Deb822LexP Deb822ParseP GrammarLexP GrammarParseP GrammarAccP LexInvP.
-Set Default Timeout 60.
 
 (* ---------------------------------------------------------------- texts *)
 Lemma tstr_ttext ts : tstr ts = ttext ts.
